@@ -82,6 +82,15 @@ def events(ctx):
             w2 = rng.choice([0, 1, 2, 4, 8])
             v2 = rnd_val(rng, w2)
         yield record("bf.eq", {"w1": w1, "v1": list(v1.to_bytes(w1, "big")), "w2": w2, "v2": list(v2.to_bytes(w2, "big"))})
+    # unequal 64-bit values that are congruent modulo a Mersenne prime / a power of two (equality decided through a hash or a
+    # truncated view would call them equal)
+    for _ in range(ctx.q(400, 20000)):
+        m = rng.choice([2 ** 61 - 1, 2 ** 31 - 1, 2 ** 32, 2 ** 63, 2 ** 61, 2 ** 62, 2 ** 13 - 1])
+        v1 = rng.randrange(0, min(m, 2 ** 64))
+        k = rng.randrange(1, max(2, (2 ** 64 - 1 - v1) // m + 1))
+        v2 = v1 + k * m
+        if v2 < 2 ** 64:
+            yield record("bf.eq", {"w1": 8, "v1": list(v1.to_bytes(8, "big")), "w2": 8, "v2": list(v2.to_bytes(8, "big"))})
     for _ in range(ctx.q(6000, 300000)):
         w = rng.choice([0, 1, 2, 4, 8])
         yield record("ibc.unsigned", {"w": w, "x": {"neg": False, "mag": mag(rnd_val(rng, w) + (rng.random() < 0.1) * (1 << (8 * w)))}})
